@@ -191,6 +191,21 @@ class KeyedList(Generic[ItemType, KeyType], MutableSequence, KeyedBase):  # pyli
         self._list.insert(index, item)
         self._dict[key] = item
 
+    def extend(self, values):
+        # Validate the whole batch before inserting anything, so that a
+        # rejected item does not leave the container partially extended.
+        items = [self._validate_item(value) for value in values]
+        seen = set()
+        for _, key in items:
+            if key in self._dict or key in seen:
+                raise ValueError(
+                    f"Item with key `{repr(key)}` already in `{type_label(self._type)}`."
+                )
+            seen.add(key)
+        for item, key in items:
+            self._list.append(item)
+            self._dict[key] = item
+
     def __contains__(self, value):
         try:
             if value in self._dict:
